@@ -64,23 +64,23 @@ def run(tier, seed, res):
     _collect(res, wr)
     # (2) rapidcheck, sequential model
     n = 12
-    per = 2000 if quick else 300000
+    per = 1500 if quick else 300000
     jobs = [dict(cmd=[b, "rc"], env=dict(ASAN, RC_PARAMS="seed=%d max_success=%d max_size=200" % (seed * 131 + i, per)), tag="rc")
             for i in range(n)]
     wr = core.run_workers(PROP, jobs)
     res.absorb(wr, "rc")
     _collect(res, wr)
     # (3) generated schedules (dsched): pushers and poppers on a shared two-level buffer
-    per = 2500 if quick else 150000
+    per = 2000 if quick else 150000
     jobs = [dict(cmd=[b, "conc"], env=dict(ASAN, RC_PARAMS="seed=%d max_success=%d max_size=100" % (seed * 977 + i, per)), tag="conc")
             for i in range(n)]
     wr = core.run_workers(PROP, jobs)
     res.absorb(wr, "conc")
     _collect(res, wr)
     # (4) real threads
-    iters = 40000 if quick else 5000000
+    iters = 20000 if quick else 5000000
     jobs = [dict(cmd=[b, "stress", str(t), str(iters), str(seed * 17 + t)], env=dict(ASAN), tag="stress") for t in (2, 4, 8)]
-    wr = core.run_workers(PROP, jobs, max_parallel=1)
+    wr = core.run_workers(PROP, jobs, max_parallel=3 if quick else 1)
     res.absorb(wr, "stress")
     _collect(res, wr)
 
